@@ -56,8 +56,8 @@ def coq_files():
     return sorted(fs)
 
 
-def coq_project():
-    fs = coq_files()
+def coq_project(files=None):
+    fs = files if files is not None else coq_files()
     txt = "-Q . PGV\n-arg -w -arg -all\n" + "\n".join(fs) + "\n"
     p = os.path.join(COQ, "_CoqProject")
     old = open(p).read() if os.path.exists(p) else None
@@ -70,11 +70,16 @@ def coq_project():
         sh(["coq_makefile", "-f", "_CoqProject", "-o", "Makefile"], cwd=COQ)
 
 
-def coq_build(targets=None, timeout=3000, clean=False):
-    """full .vo build (never -vos). returns (ok, log)"""
-    coq_project()
+def coq_build(targets=None, timeout=6000, clean=False, files=None):
+    """full .vo build (never -vos) of `files` (default: every .v under coq/) with coq_makefile + make -j16.
+    clean=True first removes the compiled files of exactly those sources. returns (ok, log)"""
+    coq_project(files)
     if clean:
-        sh(["make", "clean"], cwd=COQ)
+        for f in (files if files is not None else coq_files()):
+            for ext in ("o", "ok", "os"):
+                q = os.path.join(COQ, f + ext)
+                if os.path.exists(q):
+                    os.remove(q)
     cmd = ["make", "-j16", "-k"]
     if targets:
         cmd += targets
